@@ -23,6 +23,7 @@ func init() {
 			"R4 SevPolicy: Policy.Measurement is stored only from the comma-ok-true lookup keyed by LaunchVmsas; LaunchVmsas==0 without AllowUnspecifiedVmsas cannot return nil; a named count returns nil only after the measurement was stored. " +
 			"R5 TdxPolicy: AnyMrTd is stored only where the allow-list is known non-empty; rows are appended only from GetMrtd() of rows that passed the RamGib filter. " +
 			"R6 the named configuration is forwarded: --launch_vmsas / --ram_gib reach SevValidateOptions.ExpectedLaunchVmsas / TdxValidateOptions.ExpectedRAMGiB in every CLI function calling the validators; library literals forward ExpectedLaunchVmsas / ExpectedRAMGiB to policy and SNP options. " +
+			"R8 (= C01.R1/R3) every accepting path of every entry point passes the signature and chain verification of the endorsement whose measurements are compared. " +
 			"R7 (= C01.R4) the validator closure that performs R1/R2 is registered as a required certificate-table entry in SevValidate (an allow-missing or absent registration lets go-sev-guest discard its verdict). " +
 			"Not covered: byte-level behaviour of bytes.Equal and of the go-sev-guest / go-tdx-guest policy engines; one-bit neighbours as inputs; which count the SVSM measurement belongs to.",
 		Assumptions: []string{"go/types, go/ssa", "bytes.Equal", "go-sev-guest / go-tdx-guest validate the policy fields they are given; an empty AnyMrTd disables the MRTD check in go-tdx-guest"},
@@ -51,6 +52,11 @@ func isBytesEqual(in ssa.Instruction) (*ssa.Call, bool) {
 func runC02(c *Ctx) {
 	// R7 = C01.R4: the closure that compares the measurement only decides anything if go-sev-guest must call it.
 	c.borrow("R7/C01.", runC01, func(rule, _ string) bool { return rule == "R4" })
+	// R8 = C01.R1/R3: "the measurement is listed by the endorsement" only means something if the endorsement that
+	// lists it is authentic — every accepting path passes the signature and chain checks.
+	c.borrow("R8/C01.", runC01, func(rule, _ string) bool {
+		return rule == "R1" || rule == "R1a" || rule == "R1b" || rule == "R1c" || rule == "R3" || rule == "R3b"
+	})
 	verifyPkg := repoPath("verify")
 	epbPkg := repoPath("proto/endorsement")
 	gcePkg := repoPath("gcetcbendorsement")
